@@ -194,12 +194,10 @@ def orientStep {n : Nat} (G : Graph n) (o : Orient n) (op : Json) : M (Orient n 
   let wrap (o' : Orient n) (r : Json) : Orient n × Json := (o', Json.mkObj [("r", r), ("o", jOrient G o' true)])
   match kind with
   | "set" =>
-    match ref? n (← a[1]!.getNat?), ref? n (← a[2]!.getNat?) with
-    | some u, some v =>
-      match Orient.setO G o u v (← a[3]!.getNat?) with
-      | .ok o' => pure (wrap o' (Json.str "ok"))
-      | .error _ => pure (wrap o err)
-    | _, _ => pure (wrap o err)
+    let x ← a[1]!.getNat?
+    let y ← a[2]!.getNat?
+    let st ← a[3]!.getNat?
+    pure (wrap (Orient.oapply G o (.set x y st)) (if Orient.oaccepts G o x y st then Json.str "ok" else err))
   | "get" =>
     match ref? n (← a[1]!.getNat?), ref? n (← a[2]!.getNat?) with
     | some u, some v =>
@@ -219,16 +217,17 @@ def orientStep {n : Nat} (G : Graph n) (o : Orient n) (op : Json) : M (Orient n 
     | some v => pure (wrap o (jInt (if kind == "in" then o.inD v else o.outD v)))
     | none => pure (wrap o err)
   | "full" =>
-    let (o', f) := Orient.checkFullness G o
-    pure (wrap o' (jBool f))
+    pure (wrap (Orient.oapply G o .full) (jBool (Orient.checkFullness G o).2))
   | "reverse" =>
-    let (o', f) := Orient.needFull G o
+    let o' := Orient.oapply G o .needFull
+    let f := (Orient.needFull G o).2
     if !f then pure (wrap o' err) else
     match Orient.new G (Orient.reversedPairs G o') with
     | .ok r => pure (wrap o' (jOrient G r true))
     | .error _ => pure (wrap o' err)
   | "divisor" =>
-    let (o', f) := Orient.needFull G o
+    let o' := Orient.oapply G o .needFull
+    let f := (Orient.needFull G o).2
     if !f then pure (wrap o' err) else
     pure (wrap o' (jDiv (Divisor.ofFn (Orient.divisorOf o'))))
   | "canonical" => pure (wrap o (jDiv (Divisor.ofFn (canonicalOf G))))
